@@ -8,11 +8,15 @@
     (2) the hypotheses are narrower than the property's quantifier.
   This file repairs both.
 
-  FINDING K-usage-crash-dup (server.py: `release_nameplate`, `Mailbox.close`, `prune`: `usage_db.commit()`
-  PRECEDES `db.commit()`).  With a usage database, a crash between the two commits leaves the usage record
-  on disk while the channel rows survive; the re-sent command (or the next sweep) then writes the record a
-  SECOND time.  A re-sent `close` that arrives after the channel commit creates the mailbox again, deletes it
-  and writes one more record `(for_nameplate = 0, total = 0)`.
+  FINDING K-usage-crash-dup (server.py `release_nameplate` 343-344, `Mailbox.close` 176-177:
+  `usage_db.commit()` PRECEDES `db.commit()`).  With a usage database, a crash between the two commits leaves
+  the usage record on disk while the channel rows survive; the re-sent command -- or, if the client never
+  returns, the next sweep (`C10_release_crash_then_sweep_two_records`) -- then writes a record for the same
+  object a SECOND time.  A re-sent `close` that arrives after the channel commit creates the mailbox again,
+  deletes it and writes one more record `(for_nameplate = 0, total = 0)`.
+  In `prune` the order is the REVERSE (`db.commit()` first, 555-557): a sweep killed between its two commits
+  has deleted the expired rows and recorded nothing, for good (`C10_sweep_crash_loses_usage_counterexample`).
+  Both are outside C15's "exactly one record per retired object", which is proved for crash-free steps.
 
   WHAT IS PROVED (`resend`, `Resend`, `Answered` as in Inv/UsageResend.lean, Inv/DupOrig.lean)
   (a) `C10_resend_usage_equal_nousage`: with `cfg.usage = false` the usage database is untouched by the
@@ -1138,4 +1142,866 @@ theorem close_pair_points {s : Sys} (hP : s.db.PInv) (hS : s.Synced) {c : Nat} {
 
 end Sys
 
+
+/-! ### the usage rows of a deleting `close`, as functions of the channel database it works on -/
+
+/-- the usage `nameplates` rows a deleting `close` of `(a, m)` writes: one per nameplate pointing at it -/
+def Chan.closeRecsNp (pre : Chan) (blur : Time → Time) (a m : String) (t : Time) : List UNameplate :=
+  (pre.nameplatesOfMailbox a m).map (fun np => npRecord blur a ((pre.npSidesOf np.id).map (·.added)) t false)
+
+/-- the usage `mailboxes` row a deleting `close` of `(a, m)` by side `σ` writes -/
+def Chan.closeRecsMb (pre : Chan) (blur : Time → Time) (a m σ : String) (mood : Option String) (t : Time) :
+    List UMailbox :=
+  match pre.findMailbox a m with
+  | some row => [mbRecord blur a row.forNp ((pre.closeSide m σ mood).mbSidesOf m) t false]
+  | none => []
+
+/-- **the surplus row of a re-sent `close` of a mailbox that is gone**: `for_nameplate = 0`, one side
+    (the closing one, added at `t`, with the submitted mood), retired at `t` -/
+def goneRecord (blur : Time → Time) (a m σ : String) (mood : Option String) (t : Time) : UMailbox :=
+  mbRecord blur a false [⟨m, false, σ, t, mood⟩] t false
+
+namespace Chan
+
+theorem closeRecsMb_length (pre : Chan) (blur : Time → Time) (a m σ : String) (mood : Option String) (t : Time) :
+    (pre.closeRecsMb blur a m σ mood t).length ≤ 1 := by
+  unfold closeRecsMb; split <;> simp
+
+theorem findMailbox_touch (d : Chan) (m' : String) (t' : Time) (a m : String) :
+    (d.touch m' t').findMailbox a m =
+      (d.findMailbox a m).map (fun r => if r.id = m' then { r with updated := t' } else r) := by
+  unfold findMailbox touch
+  apply dup_find?_map
+  intro x
+  split <;> rfl
+
+theorem closeRecsNp_touch (d : Chan) (m' : String) (t' : Time) (blur : Time → Time) (a m : String) (t : Time) :
+    (d.touch m' t').closeRecsNp blur a m t = d.closeRecsNp blur a m t := rfl
+
+theorem closeRecsMb_touch (d : Chan) (m' : String) (t' : Time) (blur : Time → Time) (a m σ : String)
+    (mood : Option String) (t : Time) :
+    (d.touch m' t').closeRecsMb blur a m σ mood t = d.closeRecsMb blur a m σ mood t := by
+  unfold closeRecsMb
+  rw [findMailbox_touch]
+  cases d.findMailbox a m with
+  | none => rfl
+  | some row =>
+    simp only [Option.map_some]
+    have : (if row.id = m' then { row with updated := t' } else row).forNp = row.forNp := by split <;> rfl
+    rw [this]
+    rfl
+
+theorem otherOpen_touch (d : Chan) (m' : String) (t' : Time) (m σ : String) :
+    (d.touch m' t').OtherOpen m σ ↔ d.OtherOpen m σ := Iff.rfl
+
+theorem closeRecsNp_closeSide (d : Chan) (m' σ' : String) (mood' : Option String) (blur : Time → Time)
+    (a m : String) (t : Time) :
+    (d.closeSide m' σ' mood').closeRecsNp blur a m t = d.closeRecsNp blur a m t := rfl
+
+theorem closeRecsMb_closeSide (d : Chan) (blur : Time → Time) (a m σ : String) (mood : Option String) (t : Time) :
+    (d.closeSide m σ mood).closeRecsMb blur a m σ mood t = d.closeRecsMb blur a m σ mood t := by
+  unfold closeRecsMb
+  rw [closeSide_eq_self (closeSide_closed d m σ mood)]
+  rfl
+
+theorem closeRecsNp_openDb (d : Chan) (a' m' σ' : String) (t' : Time) (blur : Time → Time) (a m : String)
+    (t : Time) :
+    (d.openDb a' m' σ' t').closeRecsNp blur a m t = d.closeRecsNp blur a m t := rfl
+
+/-- re-opening the mailbox a deleting `close` removed, and closing it again: no nameplate record ... -/
+theorem closeRecsNp_gone (d : Chan) (blur : Time → Time) (a m σ : String) (t' t : Time) :
+    ((d.dropMailbox a m).openDb a m σ t').closeRecsNp blur a m t = [] := by
+  rw [closeRecsNp_openDb]
+  unfold closeRecsNp nameplatesOfMailbox
+  have : (d.dropMailbox a m).nameplates.filter (fun r => r.app = a ∧ r.mailbox = m) = [] := by
+    rw [List.filter_eq_nil_iff]
+    intro n hn
+    have := ((mem_dropMailbox_nameplates d a m).1 hn).2
+    simpa using this
+  rw [this]; rfl
+
+/-- ... and exactly the `goneRecord` -/
+theorem closeRecsMb_gone {d : Chan} (hids : d.mailboxes.Pairwise (fun a b => ¬ a.id = b.id)) {a m : String}
+    (hb : d.HasBox a m) (blur : Time → Time) (σ : String) (mood : Option String) (t : Time) :
+    ((d.dropMailbox a m).openDb a m σ t).closeRecsMb blur a m σ mood t = [goneRecord blur a m σ mood t] := by
+  have hnone : (d.dropMailbox a m).findMailbox a m = none := by
+    rw [findMailbox_eq_none]
+    rintro ⟨r, hr, _, hid⟩
+    exact dropMailbox_noId hids hb r hr hid
+  have hsnone : (d.dropMailbox a m).findMbSide m σ = none := by
+    rw [findMbSide_eq_none]
+    intro r hr hk
+    exact ((mem_dropMailbox_mbSides d a m).1 hr).2 hk.1
+  have hfind : ((d.dropMailbox a m).openDb a m σ t).findMailbox a m = some ⟨a, m, t, false⟩ := by
+    unfold openDb
+    simp only [hnone]
+    unfold findMailbox at hnone ⊢
+    exact Sys.find?_append_of_none hnone _ (by simp)
+  unfold closeRecsMb
+  rw [hfind]
+  dsimp only
+  have hsides : (((d.dropMailbox a m).openDb a m σ t).closeSide m σ mood).mbSidesOf m = [⟨m, false, σ, t, mood⟩] := by
+    have h1 : ((d.dropMailbox a m).openDb a m σ t).mbSides = (d.dropMailbox a m).mbSides ++ [⟨m, true, σ, t, none⟩] := by
+      unfold openDb; simp only [hsnone]
+    have h2 : (d.dropMailbox a m).mbSides.filter (fun r => r.mailbox = m) = [] := dropMailbox_mbSidesOf_self d a m
+    unfold mbSidesOf closeSide
+    simp only [h1, List.map_append, List.filter_append, List.map_cons, List.map_nil]
+    have h3 : ((d.dropMailbox a m).mbSides.map
+        (fun r => if r.mailbox = m ∧ r.side = σ then { r with opened := false, mood := mood } else r)).filter
+        (fun r => r.mailbox = m) = [] := by
+      rw [List.filter_eq_nil_iff]
+      intro r hr
+      obtain ⟨r0, hr0, rfl⟩ := List.mem_map.1 hr
+      have hne : ¬ r0.mailbox = m := ((mem_dropMailbox_mbSides d a m).1 hr0).2
+      split <;> simpa using hne
+    rw [h3]
+    simp
+  rw [hsides]
+  rfl
+
+end Chan
+namespace Sys
+
+/-- the usage database after an accepted `close` of `(a, m)` by side `σ`, `pre` being the channel database
+    after the implicit `open_mailbox` -/
+def closeUdb (s : Sys) (pre : Chan) (a m σ : String) (mood : Option String) (t : Time) : Usage :=
+  if s.cfg.usage = true ∧ ¬ pre.OtherOpen m σ then
+    { s.udb with
+      nameplates := s.udb.nameplates ++ pre.closeRecsNp s.blurTime a m t
+      mailboxes := s.udb.mailboxes ++ pre.closeRecsMb s.blurTime a m σ mood t }
+  else s.udb
+
+/-- **an accepted `close`, neither `IntegrityError` nor `crowded`: the usage database afterwards** -/
+theorem close_step_udb_all {s : Sys} (hP : s.db.PInv) (hN : s.db.NpHasSide) (hS : s.Synced)
+    {c : Nat} {x : Conn} (hx : s.findConn c = some x) {mo mood : Option String}
+    (hr : rejectText x (.close mo mood) = none) {a : String} (happ : x.app = some a)
+    {m : String} (htg : x.closeTarget mo = some m) (t : Time) (id : Val)
+    (hnot : ¬ (x.mailbox = none ∧ (s.db.Clash a m ∨ ((closePre s x a m t).mbSidesOf m).length > 2)))
+    (hb : (closePre s x a m t).HasBox a m) (hs : (closePre s x a m t).findMbSide m (x.side.getD "") ≠ none) :
+    (s.step (.recv c t id (.close mo mood))).udb = s.closeUdb (closePre s x a m t) a m (x.side.getD "") mood t := by
+  unfold closeUdb
+  cases hu : s.cfg.usage with
+  | false =>
+    rw [(C15_no_usage_db_no_writes hS.2 hu _).1]
+    simp
+  | true =>
+    by_cases ho : (closePre s x a m t).OtherOpen m (x.side.getD "")
+    · obtain ⟨_, _, h3⟩ := close_step hP hN hS hx hr happ htg t id
+      obtain ⟨_, _, _, _, _, hsurv, _⟩ := h3 hnot
+      rw [(hsurv (fun h => h.2.2 ho)).2]
+      simp [ho]
+    · obtain ⟨row, hrow⟩ := Option.isSome_iff_exists.1 (Chan.findMailbox_isSome.2 hb)
+      obtain ⟨r0, hr0⟩ := Option.ne_none_iff_exists'.1 hs
+      have hany : (((closePre s x a m t).closeSide m (x.side.getD "") mood).mbSidesOf m).any (·.opened) = false := by
+        have := (not_congr (Chan.closeSide_any_opened (closePre s x a m t) m (x.side.getD "") mood)).2 ho
+        simpa using this
+      rw [close_step_udb hP hN hu hx hr happ htg t id hnot hrow hr0 hany]
+      rw [if_pos ⟨rfl, ho⟩]
+      unfold Chan.closeRecsNp Chan.closeRecsMb
+      rw [hrow]
+
+end Sys
+
+namespace Chan
+
+/-- the re-run `close` (implicit `open_mailbox` first) from `D` sees the same "other side open" test and
+    computes the same usage rows as the `close` that worked on `pre` -/
+def SameRecs (pre pre' : Chan) (a m σ : String) (mood : Option String) : Prop :=
+  (pre'.OtherOpen m σ ↔ pre.OtherOpen m σ) ∧
+  ∀ (blur : Time → Time) (t : Time), pre'.closeRecsNp blur a m t = pre.closeRecsNp blur a m t ∧
+    pre'.closeRecsMb blur a m σ mood t = pre.closeRecsMb blur a m σ mood t
+
+theorem sameRecs_points {pre : Chan} (hids : pre.mailboxes.Pairwise (fun a b => ¬ a.id = b.id)) {a m σ : String}
+    (mood : Option String) (t : Time) (hb : pre.HasBox a m) (hs : pre.findMbSide m σ ≠ none) :
+    SameRecs pre (pre.openDb a m σ t) a m σ mood ∧
+    SameRecs pre ((pre.closeSide m σ mood).openDb a m σ t) a m σ mood := by
+  have hb' : (pre.closeSide m σ mood).HasBox a m := hb
+  have hs' : (pre.closeSide m σ mood).findMbSide m σ ≠ none := closeSide_findMbSide_ne_none.2 hs
+  constructor
+  · rw [openDb_eq_touch hids hb hs]
+    exact ⟨otherOpen_touch _ _ _ _ _, fun blur t' => ⟨closeRecsNp_touch _ _ _ _ _ _ _, closeRecsMb_touch _ _ _ _ _ _ _ _ _⟩⟩
+  · rw [openDb_eq_touch (d := pre.closeSide m σ mood) hids hb' hs']
+    refine ⟨(otherOpen_touch _ _ _ _ _).trans closeSide_otherOpen, fun blur t' => ⟨?_, ?_⟩⟩
+    · rw [closeRecsNp_touch, closeRecsNp_closeSide]
+    · rw [closeRecsMb_touch, closeRecsMb_closeSide]
+
+end Chan
+
+/-- an answered command was not rejected -/
+theorem not_rejected_of_closed' {s : Sys} {c : Nat} {x : Conn} (hx : s.findConn c = some x) {mo mood : Option String}
+    (t : Time) (id : Val) {b : Bool}
+    (hans : Event.frame c .closed b ∈ (s.step (.recv c t id (.close mo mood))).out) :
+    rejectText x (.close mo mood) = none := by
+  cases hr : rejectText x (.close mo mood) with
+  | none => rfl
+  | some text => rcases rejected_out t id hx hr _ hans with ⟨_, e⟩ | ⟨_, e⟩ <;> cases e
+
+/-- **C10 (re-sent `close`), both databases, every crash point** — partial for the channel database for
+    exactly the two known findings, as in C10b (K-crowded-rejoin: `hguard`; K-close-touch: equal up to
+    `touch m t`, EQUAL when the mailbox was deleted), and for the usage database for K-usage-crash-dup:
+    `recsN`, `recsM` are the usage rows the uncrashed step wrote (none unless it deleted the mailbox and a
+    usage database exists; at most one `mailboxes` row); the re-sent run ends with
+      (i)   the usage tables of the uncrashed run, or
+      (ii)  those tables FOLLOWED BY `recsN` / `recsM` ONCE MORE -- only if the crash state holds the usage
+            database of the uncrashed run but not its channel database (crash between the two commits), or
+      (iii) the `nameplates` table of the uncrashed run and its `mailboxes` table followed by ONE row
+            `goneRecord` -- only if the crash state is the final state of the deleting close (the re-sent
+            close re-creates the mailbox, deletes it and records it).
+    `close` with or without the mailbox name (`htg`: it acts on `m`); pre-state reachable WITH crashes;
+    ANY `k`. -/
+theorem C10_resend_close_all_partial {g : GSys} (hg : g.Reach) {c : Nat} {x : Conn} {a σ : String}
+    (hx : g.sys.findConn c = some x) (happ : x.app = some a) (hside : x.side = some σ)
+    {mo : Option String} {m : String} {mood : Option String} (t : Time) (id : Val)
+    (hw : g.WFOp (.recv c t id (.close mo mood)))
+    (htg : x.closeTarget mo = some m) {b : Bool}
+    (hans : Event.frame c .closed b ∈ (g.sys.step (.recv c t id (.close mo mood))).out)
+    (hguard : x.mailbox ≠ none → (g.sys.db.mbSidesOf m).length ≤ 2)
+    (k : Nat) (c' : Nat) (id₁ : Val) (impl ver : Option String) :
+    (g.sys.step (.recv c t id (.close mo mood))).frames = [.frame c (.ack id) true, .frame c .closed true] ∧
+    (resend (g.sys.step (.crashIn k (.recv c t id (.close mo mood)))) c' t id₁ id a σ impl ver
+      (.close (some m) mood)).frames = [.frame c' (.ack id) true, .frame c' .closed true] ∧
+    ((resend (g.sys.step (.crashIn k (.recv c t id (.close mo mood)))) c' t id₁ id a σ impl ver
+        (.close (some m) mood)).db = (g.sys.step (.recv c t id (.close mo mood))).db ∨
+      (resend (g.sys.step (.crashIn k (.recv c t id (.close mo mood)))) c' t id₁ id a σ impl ver
+        (.close (some m) mood)).db = (g.sys.step (.recv c t id (.close mo mood))).db.touch m t) ∧
+    (¬ (g.sys.step (.recv c t id (.close mo mood))).db.HasId m →
+      (resend (g.sys.step (.crashIn k (.recv c t id (.close mo mood)))) c' t id₁ id a σ impl ver
+        (.close (some m) mood)).db = (g.sys.step (.recv c t id (.close mo mood))).db) ∧
+    ∃ (recsN : List UNameplate) (recsM : List UMailbox),
+      (g.sys.step (.recv c t id (.close mo mood))).udb.nameplates = g.sys.udb.nameplates ++ recsN ∧
+      (g.sys.step (.recv c t id (.close mo mood))).udb.mailboxes = g.sys.udb.mailboxes ++ recsM ∧
+      recsM.length ≤ 1 ∧
+      (g.sys.cfg.usage = false → recsN = [] ∧ recsM = []) ∧
+      ((g.sys.step (.recv c t id (.close mo mood))).db.HasId m → recsN = [] ∧ recsM = []) ∧
+      (((resend (g.sys.step (.crashIn k (.recv c t id (.close mo mood)))) c' t id₁ id a σ impl ver
+            (.close (some m) mood)).udb.nameplates = (g.sys.step (.recv c t id (.close mo mood))).udb.nameplates ∧
+          (resend (g.sys.step (.crashIn k (.recv c t id (.close mo mood)))) c' t id₁ id a σ impl ver
+            (.close (some m) mood)).udb.mailboxes = (g.sys.step (.recv c t id (.close mo mood))).udb.mailboxes) ∨
+        ((resend (g.sys.step (.crashIn k (.recv c t id (.close mo mood)))) c' t id₁ id a σ impl ver
+            (.close (some m) mood)).udb.nameplates =
+              (g.sys.step (.recv c t id (.close mo mood))).udb.nameplates ++ recsN ∧
+          (resend (g.sys.step (.crashIn k (.recv c t id (.close mo mood)))) c' t id₁ id a σ impl ver
+            (.close (some m) mood)).udb.mailboxes =
+              (g.sys.step (.recv c t id (.close mo mood))).udb.mailboxes ++ recsM ∧
+          (g.sys.step (.crashIn k (.recv c t id (.close mo mood)))).udb =
+            (g.sys.step (.recv c t id (.close mo mood))).udb ∧
+          (g.sys.step (.crashIn k (.recv c t id (.close mo mood)))).db ≠
+            (g.sys.step (.recv c t id (.close mo mood))).db) ∨
+        ((resend (g.sys.step (.crashIn k (.recv c t id (.close mo mood)))) c' t id₁ id a σ impl ver
+            (.close (some m) mood)).udb.nameplates = (g.sys.step (.recv c t id (.close mo mood))).udb.nameplates ∧
+          (resend (g.sys.step (.crashIn k (.recv c t id (.close mo mood)))) c' t id₁ id a σ impl ver
+            (.close (some m) mood)).udb.mailboxes =
+              (g.sys.step (.recv c t id (.close mo mood))).udb.mailboxes ++
+                [goneRecord g.sys.blurTime a m σ mood t] ∧
+          (g.sys.step (.crashIn k (.recv c t id (.close mo mood)))).db =
+            (g.sys.step (.recv c t id (.close mo mood))).db ∧
+          ¬ (g.sys.step (.recv c t id (.close mo mood))).db.HasId m ∧ g.sys.cfg.usage = true)) := by
+  have hI := hg.ginv
+  have hP := hI.cinv.toPInv
+  have hN := hI.cinv.npHasSide
+  have hH : g.sys.HandleRow := C05.handleRow_reach (fun _ h => h.ginv) hg
+  have hIk : (g.step (.crashIn k (.recv c t id (.close mo mood)))).GInv := hI.step _ (hw.crashIn rfl k)
+  have hr := not_rejected_of_closed' hx t id hans
+  obtain ⟨h1, h2, h3⟩ := close_step hP hN hI.synced hx hr happ htg t id
+  rw [getD_of_side hside] at h3
+  -- the answer `closed` excludes IntegrityError and `crowded`
+  have hnot : ¬ (x.mailbox = none ∧ (g.sys.db.Clash a m ∨ ((closePre g.sys x a m t).mbSidesOf m).length > 2)) := by
+    rintro ⟨hm, hcl | hcr⟩
+    · rw [(h1 hm hcl).1] at hans
+      simp at hans
+    · by_cases hcl : g.sys.db.Clash a m
+      · rw [(h1 hm hcl).1] at hans; simp at hans
+      · obtain ⟨⟨cm, hcm, ho⟩, _⟩ := h2 hm hcl hcr
+        rw [ho] at hans
+        simp only [List.mem_cons, List.mem_append, List.not_mem_nil, or_false] at hans
+        rcases hans with h | h | h
+        · cases h
+        · obtain ⟨w, hw'⟩ := hcm _ h; cases hw'
+        · cases h
+  obtain ⟨⟨commits, hc, hout⟩, hdb, _, _, _, _, _⟩ := h3 hnot
+  have hxmem := findConn_mem hx
+  have hudbO := close_step_udb_all hP hN hI.synced hx hr happ htg t id hnot
+  rw [getD_of_side hside] at hudbO
+  have hcpp := fun (P : Chan → Usage → Prop) => close_pair_points hP hI.synced hx hr happ htg t id (P := P)
+  simp only [getD_of_side hside] at hcpp
+  generalize hpre : closePre g.sys x a m t = pre at hnot hdb hudbO hcpp
+  -- the database at the entry of `Mailbox.close`
+  have hpre' : pre = (if x.mailbox = none then g.sys.db.openDb a m σ t else g.sys.db) := by
+    rw [← hpre]; unfold closePre; rw [getD_of_side hside]
+  have hncl : ¬ (x.mailbox = none ∧ g.sys.db.Clash a m) := fun h => hnot ⟨h.1, Or.inl h.2⟩
+  have hpreP : pre.PInv := by
+    rw [hpre']
+    split
+    · rename_i hm; exact hP.openDb _ _ (fun hcl => hncl ⟨hm, hcl⟩)
+    · exact hP
+  have hb : pre.HasBox a m := by
+    rw [hpre']
+    cases hh : x.mailbox with
+    | none => simp only [if_true]; exact Chan.openDb_hasBox _ _ _ _ _
+    | some h =>
+      have : m = h := by simp [Conn.closeTarget, hh] at htg; exact htg.symm
+      subst this
+      simp only [reduceCtorEq, if_false]
+      obtain ⟨_, a', ha', row, hrow, hid, hra⟩ := hI.conn.handle x hxmem m hh
+      rw [happ] at ha'; cases ha'
+      exact ⟨row, hrow, hra, hid⟩
+  have hs : pre.findMbSide m σ ≠ none := by
+    rw [hpre']
+    cases hh : x.mailbox with
+    | none => simp only [if_true]; exact Chan.openDb_findMbSide_ne_none _ _ _ _ _
+    | some h =>
+      have : m = h := by simp [Conn.closeTarget, hh] at htg; exact htg.symm
+      subst this
+      simp only [reduceCtorEq, if_false]
+      obtain ⟨r, hr', hm', hs'⟩ := hH x hxmem m hh
+      rw [getD_of_side hside] at hs'
+      intro hnone
+      exact (Chan.findMbSide_eq_none.1 hnone) r hr' ⟨hm', hs'⟩
+  have hlen : (pre.mbSidesOf m).length ≤ 2 := by
+    cases hh : x.mailbox with
+    | none =>
+      have : ¬ (pre.mbSidesOf m).length > 2 := fun h => hnot ⟨hh, Or.inr h⟩
+      omega
+    | some h =>
+      rw [hpre', hh]; simp only [reduceCtorEq, if_false]
+      exact hguard (by rw [hh]; simp)
+  have hudbO' := hudbO hb hs
+  refine ⟨frames_of_answer hc (by rfl) hout, ?_⟩
+  -- commit points, as pairs
+  have hcrash := crash_pair_of_pairAll g.sys hI.synced k (.recv c t id (.close mo mood))
+    (P := fun d u => (d = g.sys.db ∧ u = g.sys.udb) ∨ (d = pre ∧ u = g.sys.udb) ∨
+      (d = pre.closeSide m σ mood ∧ u = g.sys.udb) ∨
+      (d = pre.closeSide m σ mood ∧ u = g.sys.closeUdb pre a m σ mood t) ∨
+      (d = pre.closeDb a m σ mood ∧ u = g.sys.closeUdb pre a m σ mood t))
+    (Or.inl ⟨rfl, rfl⟩)
+    (hcpp _ (Or.inl ⟨rfl, rfl⟩) (Or.inr (Or.inl ⟨rfl, rfl⟩)) (Or.inr (Or.inr (Or.inl ⟨rfl, rfl⟩)))
+      (Or.inr (Or.inr (Or.inr (Or.inl ⟨rfl, hudbO'⟩)))) (Or.inr (Or.inr (Or.inr (Or.inr ⟨hdb, hudbO'⟩)))))
+  have hkcfg : (g.sys.step (.crashIn k (.recv c t id (.close mo mood)))).cfg = g.sys.cfg := crash_cfg _ _ _
+  rw [hdb, hudbO']
+  generalize hsk : g.sys.step (.crashIn k (.recv c t id (.close mo mood))) = sk at hcrash hkcfg ⊢
+  have hSk : sk.Synced := by rw [← hsk]; exact hIk.synced
+  have hPk : sk.db.PInv := by rw [← hsk]; exact hIk.cinv.toPInv
+  have hNk : sk.db.NpHasSide := by rw [← hsk]; exact hIk.cinv.npHasSide
+  obtain ⟨hRdb, hRsy, hRconns, hRcfg, hR⟩ := resend_ready hSk c' t id₁ a σ impl ver
+  obtain ⟨hbn, hbm⟩ := resend_bound_udb hSk c' t id₁ a σ impl ver
+  have hf : ∀ y ∈ (sk.step (.restart t)).conns, y.id ≠ c' := by rw [hRconns]; simp
+  have hxb := hR.findConn hf
+  have hSb := hR.synced hRsy
+  generalize hsb : ((sk.step (.restart t)).step (.connect c')).step
+      (.recv c' t id₁ (.bind (some a) (some σ) impl ver)) = sb at hR hbn hbm hxb hSb
+  have hbcfg : sb.cfg = g.sys.cfg := by rw [hR.cfg, hRcfg, hkcfg]
+  have hPb : sb.db.PInv := by rw [hR.db, hRdb]; exact hPk
+  have hNb : sb.db.NpHasSide := by rw [hR.db, hRdb]; exact hNk
+  obtain ⟨_, _, k3⟩ := close_step hPb hNb hSb hxb
+    (dupConn_close_valid c' a σ m mood) (app := a) rfl (dupConn_closeTarget c' a σ m) t id
+  have hudbR := close_step_udb_all hPb hNb hSb hxb (dupConn_close_valid c' a σ m mood) (a := a) rfl
+    (dupConn_closeTarget c' a σ m) t id
+  rw [dupConn_closePre, hR.db, hRdb] at k3 hudbR
+  have hside' : (dupConn c' a σ).side.getD "" = σ := rfl
+  rw [hside'] at k3 hudbR
+  have hresend : resend sk c' t id₁ id a σ impl ver (.close (some m) mood) =
+      sb.step (.recv c' t id (.close (some m) mood)) := by unfold resend; rw [hsb]
+  rw [hresend]
+  have hcrashDb : sk.db = g.sys.db ∨ sk.db = pre ∨ sk.db = pre.closeSide m σ mood ∨ sk.db = pre.closeDb a m σ mood := by
+    rcases hcrash with h | h | h | h | h
+    · exact Or.inl h.1
+    · exact Or.inr (Or.inl h.1)
+    · exact Or.inr (Or.inr (Or.inl h.1))
+    · exact Or.inr (Or.inr (Or.inl h.1))
+    · exact Or.inr (Or.inr (Or.inr h.1))
+  -- the three facts the re-send needs at the crash point: no clash, not crowded, where it ends
+  have key : ¬ sk.db.Clash a m ∧ ((sk.db.openDb a m σ t).mbSidesOf m).length ≤ 2 ∧
+      (sk.db.closeRun a m σ mood t = pre.closeDb a m σ mood ∨
+        sk.db.closeRun a m σ mood t = (pre.closeDb a m σ mood).touch m t) := by
+    obtain ⟨p1, p2, p3⟩ := Chan.closeRun_points hpreP.mbIds mood t hb hs
+    obtain ⟨l1, l2, l3⟩ := Chan.closeRun_sides (a := a) mood t hs
+    have hbox_nc : ∀ d : Chan, d.HasBox a m → ¬ d.Clash a m := fun d hbx hcl => hcl.2 hbx
+    have fromPre : sk.db = pre → ¬ sk.db.Clash a m ∧ ((sk.db.openDb a m σ t).mbSidesOf m).length ≤ 2 ∧
+        (sk.db.closeRun a m σ mood t = pre.closeDb a m σ mood ∨
+          sk.db.closeRun a m σ mood t = (pre.closeDb a m σ mood).touch m t) := by
+      intro h
+      rw [h]
+      exact ⟨hbox_nc _ hb, by rw [l1]; exact hlen, Or.inr p1⟩
+    rcases hcrashDb with h | h | h | h
+    · -- the database before the step
+      cases hh : x.mailbox with
+      | some hd =>
+        apply fromPre
+        rw [h, hpre', hh]; simp
+      | none =>
+        have hpo : pre = g.sys.db.openDb a m σ t := by rw [hpre', hh]; simp
+        rw [h]
+        refine ⟨fun hcl => hnot ⟨hh, Or.inl hcl⟩, by rw [← hpo]; exact hlen, Or.inl ?_⟩
+        unfold Chan.closeRun; rw [← hpo]
+    · exact fromPre h
+    · rw [h]
+      exact ⟨hbox_nc _ hb, by rw [l2]; exact hlen, Or.inr p2⟩
+    · rw [h, Chan.closeDb_of_box hb hs] at *
+      by_cases ho : pre.OtherOpen m σ
+      · rw [if_pos ho] at p3 ⊢
+        exact ⟨hbox_nc _ hb, by rw [l2]; exact hlen, Or.inr p3⟩
+      · rw [if_neg ho] at p3 ⊢
+        refine ⟨?_, by rw [l3]; omega, Or.inr p3⟩
+        rintro ⟨⟨row, hrow, hid, _⟩, _⟩
+        exact Chan.dropMailbox_noId hpreP.mbIds hb row hrow hid
+  obtain ⟨kc, kl, kdb⟩ := key
+  have hnotR : ¬ ((dupConn c' a σ).mailbox = none ∧
+      (sk.db.Clash a m ∨ ((sk.db.openDb a m σ t).mbSidesOf m).length > 2)) := by
+    rintro ⟨_, h | h⟩
+    · exact kc h
+    · omega
+  obtain ⟨⟨commits', hc', hout'⟩, hdb', _⟩ := k3 hnotR
+  have hudbR' := hudbR hnotR (Chan.openDb_hasBox _ _ _ _ _) (Chan.openDb_findMbSide_ne_none _ _ _ _ _)
+  refine ⟨frames_of_answer hc' (by rfl) hout', ?_, ?_, ?_⟩
+  · rw [hdb']
+    exact kdb
+  · intro hgone
+    rw [hdb']
+    rcases kdb with h | h
+    · exact h
+    · exact h.trans (Chan.touch_eq_self_of_noId (fun r hr e => hgone ⟨r, hr, e⟩) t)
+  · -- the usage database
+    have hbl : sb.blurTime = g.sys.blurTime := blurTime_congr hbcfg
+    have hcd := Chan.closeDb_of_box (mood := mood) hb hs
+    have hnoId : ¬ pre.OtherOpen m σ → ¬ (pre.closeDb a m σ mood).HasId m := by
+      intro ho
+      rw [hcd, if_neg ho]
+      rintro ⟨r, hr, hid⟩
+      exact Chan.dropMailbox_noId hpreP.mbIds hb r hr hid
+    refine ⟨if g.sys.cfg.usage = true ∧ ¬ pre.OtherOpen m σ then pre.closeRecsNp g.sys.blurTime a m t else [],
+      if g.sys.cfg.usage = true ∧ ¬ pre.OtherOpen m σ then pre.closeRecsMb g.sys.blurTime a m σ mood t else [],
+      ?_, ?_, ?_, ?_, ?_, ?_⟩
+    · unfold closeUdb; split <;> simp
+    · unfold closeUdb; split <;> simp
+    · split
+      · exact Chan.closeRecsMb_length _ _ _ _ _ _ _
+      · simp
+    · intro hu; simp [hu]
+    · intro hid
+      have ho : pre.OtherOpen m σ := Classical.byContradiction (fun ho => hnoId ho hid)
+      simp [ho]
+    · rw [hudbR']
+      -- the usage tables of the re-sent run, from the crash state's
+      have hR1 : ∀ pre' : Chan, (sb.closeUdb pre' a m σ mood t).nameplates = sk.udb.nameplates ++
+          (if g.sys.cfg.usage = true ∧ ¬ pre'.OtherOpen m σ then pre'.closeRecsNp g.sys.blurTime a m t else []) ∧
+          (sb.closeUdb pre' a m σ mood t).mailboxes = sk.udb.mailboxes ++
+          (if g.sys.cfg.usage = true ∧ ¬ pre'.OtherOpen m σ then pre'.closeRecsMb g.sys.blurTime a m σ mood t else []) := by
+        intro pre'
+        unfold closeUdb
+        rw [hbcfg, hbl]
+        split
+        · exact ⟨by show sb.udb.nameplates ++ _ = _; rw [hbn], by show sb.udb.mailboxes ++ _ = _; rw [hbm]⟩
+        · exact ⟨by rw [hbn]; simp, by rw [hbm]; simp⟩
+      have hO1 : (g.sys.closeUdb pre a m σ mood t).nameplates = g.sys.udb.nameplates ++
+          (if g.sys.cfg.usage = true ∧ ¬ pre.OtherOpen m σ then pre.closeRecsNp g.sys.blurTime a m t else []) ∧
+          (g.sys.closeUdb pre a m σ mood t).mailboxes = g.sys.udb.mailboxes ++
+          (if g.sys.cfg.usage = true ∧ ¬ pre.OtherOpen m σ then pre.closeRecsMb g.sys.blurTime a m σ mood t else []) := by
+        unfold closeUdb; split <;> simp
+      obtain ⟨hsr1, hsr2⟩ := Chan.sameRecs_points hpreP.mbIds mood t hb hs
+      -- with the same records: the crash state's tables followed by the records of the uncrashed step
+      have hsame : Chan.SameRecs pre (sk.db.openDb a m σ t) a m σ mood →
+          (sb.closeUdb (sk.db.openDb a m σ t) a m σ mood t).nameplates = sk.udb.nameplates ++
+            (if g.sys.cfg.usage = true ∧ ¬ pre.OtherOpen m σ then pre.closeRecsNp g.sys.blurTime a m t else []) ∧
+          (sb.closeUdb (sk.db.openDb a m σ t) a m σ mood t).mailboxes = sk.udb.mailboxes ++
+            (if g.sys.cfg.usage = true ∧ ¬ pre.OtherOpen m σ then pre.closeRecsMb g.sys.blurTime a m σ mood t else []) := by
+        intro hs'
+        obtain ⟨e1, e2⟩ := hR1 (sk.db.openDb a m σ t)
+        rw [e1, e2]
+        have hiff : (g.sys.cfg.usage = true ∧ ¬ (sk.db.openDb a m σ t).OtherOpen m σ) ↔
+            (g.sys.cfg.usage = true ∧ ¬ pre.OtherOpen m σ) := by rw [hs'.1]
+        simp only [hiff, (hs'.2 _ _).1, (hs'.2 _ _).2, and_self]
+      have hbefore : sk.db = g.sys.db → Chan.SameRecs pre (sk.db.openDb a m σ t) a m σ mood := by
+        intro h
+        rw [h]
+        cases hh : x.mailbox with
+        | some hd =>
+          have : pre = g.sys.db := by rw [hpre', hh]; simp
+          rw [← this]; exact hsr1
+        | none =>
+          have : pre = g.sys.db.openDb a m σ t := by rw [hpre', hh]; simp
+          rw [← this]
+          exact ⟨Iff.rfl, fun _ _ => ⟨rfl, rfl⟩⟩
+      rcases hcrash with h | h | h | h | h
+      · left
+        obtain ⟨e1, e2⟩ := hsame (hbefore h.1)
+        rw [e1, e2, h.2, hO1.1, hO1.2]
+        exact ⟨rfl, rfl⟩
+      · left
+        obtain ⟨e1, e2⟩ := hsame (by rw [h.1]; exact hsr1)
+        rw [e1, e2, h.2, hO1.1, hO1.2]
+        exact ⟨rfl, rfl⟩
+      · left
+        obtain ⟨e1, e2⟩ := hsame (by rw [h.1]; exact hsr2)
+        rw [e1, e2, h.2, hO1.1, hO1.2]
+        exact ⟨rfl, rfl⟩
+      · obtain ⟨e1, e2⟩ := hsame (by rw [h.1]; exact hsr2)
+        by_cases hd : g.sys.cfg.usage = true ∧ ¬ pre.OtherOpen m σ
+        · right; left
+          refine ⟨by rw [e1, h.2], by rw [e2, h.2], h.2, ?_⟩
+          rw [h.1]
+          intro heq
+          apply hnoId hd.2
+          rw [← heq]
+          obtain ⟨r, hr, _, hid⟩ := hb
+          exact ⟨r, hr, hid⟩
+        · left
+          rw [e1, e2, h.2, if_neg hd, if_neg hd]
+          simp
+      · by_cases ho : pre.OtherOpen m σ
+        · left
+          rw [hcd, if_pos ho] at h
+          obtain ⟨e1, e2⟩ := hsame (by rw [h.1]; exact hsr2)
+          have hd : ¬ (g.sys.cfg.usage = true ∧ ¬ pre.OtherOpen m σ) := fun hd => hd.2 ho
+          rw [e1, e2, h.2, if_neg hd, if_neg hd]
+          simp
+        · have hk := h
+          rw [hcd, if_neg ho] at hk
+          obtain ⟨e1, e2⟩ := hR1 (sk.db.openDb a m σ t)
+          have hno' : ¬ (sk.db.openDb a m σ t).OtherOpen m σ := by
+            rw [Chan.otherOpen_openDb, hk.1]
+            exact Chan.dropMailbox_not_otherOpen pre a m σ
+          have hrn : (sk.db.openDb a m σ t).closeRecsNp g.sys.blurTime a m t = [] := by
+            rw [hk.1]; exact Chan.closeRecsNp_gone _ _ _ _ _ _ _
+          have hrm : (sk.db.openDb a m σ t).closeRecsMb g.sys.blurTime a m σ mood t =
+              [goneRecord g.sys.blurTime a m σ mood t] := by
+            rw [hk.1]; exact Chan.closeRecsMb_gone hpreP.mbIds hb _ _ _ _
+          rw [e1, e2, hrn, hrm, h.2]
+          cases hu : g.sys.cfg.usage with
+          | false => left; simp
+          | true =>
+            right; right
+            simp only [hno', not_false_eq_true, and_self, if_true, List.append_nil, true_and]
+            exact ⟨h.1, hnoId ho, trivial⟩
+
+
+/-! ## 7. The four commands together -/
+
+/-- the guard of K-crowded-rejoin, needed for `close` only: a connection that holds a handle closes a
+    mailbox with at most two side rows (`ResendGuard'` of C10c, for a `close` that may omit the name) -/
+def ResendGuardT (d : Chan) (x : Conn) : Cmd → Prop
+  | .close mo _ => ∀ m, x.closeTarget mo = some m → x.mailbox ≠ none → (d.mbSidesOf m).length ≤ 2
+  | _ => True
+
+/-- which crash points are covered: all, except that a `claim` lost before its first commit (`k = 0`) must be
+    re-sent with the same generated id -/
+def ResendK (k : Nat) : Cmd → Cmd → Prop
+  | .claim _ f, .claim _ f' => 1 ≤ k ∨ f' = f
+  | _, _ => True
+
+/-- **C10_resend_all_partial.**  For a REACHABLE state (crashes allowed before), a connection bound to
+    `(a, σ)`, a well-formed, successfully answered `claim` / `release` / `open` / `close` -- `release` and
+    `close` with or without the name (`Resend x cmd cmd'`: the re-send names it) -- and EVERY `k`
+    (`ResendK`): crash after the `k`-th commit, restart, reconnect, bind `(a, σ)` and send the command again.
+    * the frames the new connection gets are those the original got in the uncrashed step (re-addressed);
+    * the channel database equals the one after the uncrashed step -- for `close` under `ResendGuardT`
+      (K-crowded-rejoin), up to `touch m t` (K-close-touch);
+    * the usage `nameplates` / `mailboxes` tables of the uncrashed run are a PREFIX of those of the re-sent run
+      (K-usage-crash-dup: the surplus is exactly described in `C10_resend_release_all`,
+      `C10_resend_close_all_partial`; none for `claim` / `open`);
+    * without a usage database the usage databases are EQUAL. -/
+theorem C10_resend_all_partial {g : GSys} (hg : g.Reach) {c : Nat} {x : Conn} {a σ : String}
+    (hx : g.sys.findConn c = some x) (happ : x.app = some a) (hside : x.side = some σ)
+    {cmd cmd' : Cmd} (hcmd : Resend x cmd cmd') (t : Time) (id : Val) (hw : g.WFOp (.recv c t id cmd))
+    (hans : Answered (g.sys.step (.recv c t id cmd)).out c id cmd) (hguard : ResendGuardT g.sys.db x cmd)
+    (k : Nat) (hk : ResendK k cmd cmd') (c' : Nat) (id₁ : Val) (impl ver : Option String) :
+    (resend (g.sys.step (.crashIn k (.recv c t id cmd))) c' t id₁ id a σ impl ver cmd').frames =
+      (g.sys.step (.recv c t id cmd)).frames.map (Event.toConn c') ∧
+    ((resend (g.sys.step (.crashIn k (.recv c t id cmd))) c' t id₁ id a σ impl ver cmd').db =
+        (g.sys.step (.recv c t id cmd)).db ∨
+      ∃ mo m mood, cmd = .close mo mood ∧ x.closeTarget mo = some m ∧
+        (resend (g.sys.step (.crashIn k (.recv c t id cmd))) c' t id₁ id a σ impl ver cmd').db =
+          (g.sys.step (.recv c t id cmd)).db.touch m t) ∧
+    (g.sys.step (.recv c t id cmd)).udb.nameplates <+:
+      (resend (g.sys.step (.crashIn k (.recv c t id cmd))) c' t id₁ id a σ impl ver cmd').udb.nameplates ∧
+    (g.sys.step (.recv c t id cmd)).udb.mailboxes <+:
+      (resend (g.sys.step (.crashIn k (.recv c t id cmd))) c' t id₁ id a σ impl ver cmd').udb.mailboxes ∧
+    (g.sys.cfg.usage = false →
+      (resend (g.sys.step (.crashIn k (.recv c t id cmd))) c' t id₁ id a σ impl ver cmd').udb =
+        (g.sys.step (.recv c t id cmd)).udb) := by
+  have hnou := fun hu => (C10_resend_usage_equal_nousage hg.ginv.synced.2 hu (.recv c t id cmd) k c' t id₁ id a σ
+    impl ver cmd').2.2
+  cases hcmd with
+  | claim n f f' =>
+    obtain ⟨m, b, hA⟩ := hans
+    obtain ⟨h1, h2, h3, h4, h5, h6⟩ := C10_resend_claim_all hg hx happ hside t id hw hA k c' id₁ impl ver f' hk
+    exact ⟨by rw [h1, h2]; rfl, Or.inl h3, by rw [h4, h5]; exact List.prefix_refl _,
+      by rw [h4, h6]; exact List.prefix_refl _, hnou⟩
+  | release nm n hn =>
+    obtain ⟨b, hA⟩ := hans
+    obtain ⟨h1, h2, h3, h4, recs, _, _, _, h8⟩ := C10_resend_release_all hg hx happ hside hn t id hw hA k c' id₁ impl ver
+    refine ⟨by rw [h1, h2]; rfl, Or.inl h3, ?_, by rw [h4]; exact List.prefix_refl _, hnou⟩
+    rcases h8 with h | ⟨h, _⟩
+    · rw [h]; exact List.prefix_refl _
+    · rw [h]; exact List.prefix_append _ _
+  | open_ m =>
+    obtain ⟨h1, h2, h3, h4, h5, h6⟩ := C10_resend_open_all hg hx happ hside t id hw hans.2 k c' id₁ impl ver
+    refine ⟨?_, Or.inl h3, by rw [h4, h5]; exact List.prefix_refl _, by rw [h4, h6]; exact List.prefix_refl _, hnou⟩
+    rw [h1, h2, List.map_cons, replayFrames_toConn]
+    rfl
+  | close mo m mood htg =>
+    obtain ⟨b, hA⟩ := hans
+    obtain ⟨h1, h2, h3, _, recsN, recsM, _, _, _, _, _, h9⟩ :=
+      C10_resend_close_all_partial hg hx happ hside t id hw htg hA (hguard m htg) k c' id₁ impl ver
+    refine ⟨by rw [h1, h2]; rfl, ?_, ?_, ?_, hnou⟩
+    · rcases h3 with h | h
+      · exact Or.inl h
+      · exact Or.inr ⟨mo, m, mood, rfl, htg, h⟩
+    · rcases h9 with ⟨h, _⟩ | ⟨h, _⟩ | ⟨h, _⟩
+      · rw [h]; exact List.prefix_refl _
+      · rw [h]; exact List.prefix_append _ _
+      · rw [h]; exact List.prefix_refl _
+    · rcases h9 with ⟨_, h⟩ | ⟨_, h, _⟩ | ⟨_, h, _⟩
+      · rw [h]; exact List.prefix_refl _
+      · rw [h]; exact List.prefix_append _ _
+      · rw [h]; exact List.prefix_append _ _
+
+/-- **the positive statement about the usage tables alone** (the minimum the finding leaves true): whatever
+    the crash point, the rows of the uncrashed run are a prefix of the rows of the re-sent run -/
+theorem C10_resend_usage_prefix_partial {g : GSys} (hg : g.Reach) {c : Nat} {x : Conn} {a σ : String}
+    (hx : g.sys.findConn c = some x) (happ : x.app = some a) (hside : x.side = some σ)
+    {cmd cmd' : Cmd} (hcmd : Resend x cmd cmd') (t : Time) (id : Val) (hw : g.WFOp (.recv c t id cmd))
+    (hans : Answered (g.sys.step (.recv c t id cmd)).out c id cmd) (hguard : ResendGuardT g.sys.db x cmd)
+    (k : Nat) (hk : ResendK k cmd cmd') (c' : Nat) (id₁ : Val) (impl ver : Option String) :
+    (g.sys.step (.recv c t id cmd)).udb.nameplates <+:
+      (resend (g.sys.step (.crashIn k (.recv c t id cmd))) c' t id₁ id a σ impl ver cmd').udb.nameplates ∧
+    (g.sys.step (.recv c t id cmd)).udb.mailboxes <+:
+      (resend (g.sys.step (.crashIn k (.recv c t id cmd))) c' t id₁ id a σ impl ver cmd').udb.mailboxes :=
+  let h := C10_resend_all_partial hg hx happ hside hcmd t id hw hans hguard k hk c' id₁ impl ver
+  ⟨h.2.2.1, h.2.2.2.1⟩
+
+/-- **without a usage database: same answers, same stored state, BOTH databases** (channel database up to
+    K-close-touch for `close`, under the guard of K-crowded-rejoin) -/
+theorem C10_resend_both_nousage {g : GSys} (hg : g.Reach) (hu : g.sys.cfg.usage = false)
+    {c : Nat} {x : Conn} {a σ : String}
+    (hx : g.sys.findConn c = some x) (happ : x.app = some a) (hside : x.side = some σ)
+    {cmd cmd' : Cmd} (hcmd : Resend x cmd cmd') (t : Time) (id : Val) (hw : g.WFOp (.recv c t id cmd))
+    (hans : Answered (g.sys.step (.recv c t id cmd)).out c id cmd) (hguard : ResendGuardT g.sys.db x cmd)
+    (k : Nat) (hk : ResendK k cmd cmd') (c' : Nat) (id₁ : Val) (impl ver : Option String) :
+    (resend (g.sys.step (.crashIn k (.recv c t id cmd))) c' t id₁ id a σ impl ver cmd').frames =
+      (g.sys.step (.recv c t id cmd)).frames.map (Event.toConn c') ∧
+    ((resend (g.sys.step (.crashIn k (.recv c t id cmd))) c' t id₁ id a σ impl ver cmd').db =
+        (g.sys.step (.recv c t id cmd)).db ∨
+      ∃ mo m mood, cmd = .close mo mood ∧ x.closeTarget mo = some m ∧
+        (resend (g.sys.step (.crashIn k (.recv c t id cmd))) c' t id₁ id a σ impl ver cmd').db =
+          (g.sys.step (.recv c t id cmd)).db.touch m t) ∧
+    (resend (g.sys.step (.crashIn k (.recv c t id cmd))) c' t id₁ id a σ impl ver cmd').udb =
+      (g.sys.step (.recv c t id cmd)).udb :=
+  let h := C10_resend_all_partial hg hx happ hside hcmd t id hw hans hguard k hk c' id₁ impl ver
+  ⟨h.1, h.2.1, h.2.2.2.2 hu⟩
+
+
+/-! ## 8. K-usage-crash-dup: the counterexamples, and non-vacuity of the theorems above -/
+
+namespace C10dExample
+open C10bExample
+
+/-- side s1 has claimed nameplate "4" (mailbox "mb1") on connection 1 -/
+def Hr : List Op := [ .connect 1, bind 1 10 "s1", .recv 1 11 (.int 2) (.claim (some "4") "mb1") ]
+def gr : GSys := (GSys.init cfg 0).run Hr
+theorem gr_reachCF : gr.ReachCF :=
+  GSys.reachCF_run (.init cfg 0) Hr (GSys.wfB_sound (by decide +kernel)) (by decide)
+def xr : Conn := { id := 1, app := some "app", side := some "s1", didClaim := true, nameplateId := some "4" }
+/-- `release` in the usual client form: without the name -/
+def relOp : Op := .recv 1 20 (.int 3) (.release none)
+def rec4 : UNameplate := ⟨"app", 11, none, 9, "lonely"⟩
+
+/-- **K-usage-crash-dup, `release`** (`cfg.usage = true`).  From a state reachable WITHOUT crashes, all
+    hypotheses of `C10_resend_release_all` hold; the uncrashed `release` has three commit points
+    (channel: UPDATE; USAGE: the record; channel: DELETE).  Killed right after the SECOND (`k = 2`: the usage
+    row is on disk, the nameplate row still exists), restarted, re-sent: the same answers, the same channel
+    database -- and the usage `nameplates` table has TWO identical rows where the uncrashed run has ONE. -/
+theorem C10_resend_usage_dup_counterexample :
+    gr.ReachCF ∧ gr.sys.cfg.usage = true ∧ gr.sys.findConn 1 = some xr ∧ gr.WFOp relOp ∧
+    Np.releaseTarget xr none = some "4" ∧
+    Event.frame 1 .released true ∈ (gr.sys.step relOp).out ∧
+    (gr.sys.step relOp).snaps.map (fun p => (p.1.nameplates.length, p.2.nameplates.length)) =
+      [(1, 0), (1, 1), (0, 1)] ∧
+    (gr.sys.step (.crashIn 2 relOp)).db.nameplates.length = 1 ∧
+    (gr.sys.step (.crashIn 2 relOp)).udb.nameplates = [rec4] ∧
+    (resend (gr.sys.step (.crashIn 2 relOp)) 9 20 (.int 7) (.int 3) "app" "s1" none none
+      (.release (some "4"))).frames = [.frame 9 (.ack (.int 3)) true, .frame 9 .released true] ∧
+    (resend (gr.sys.step (.crashIn 2 relOp)) 9 20 (.int 7) (.int 3) "app" "s1" none none
+      (.release (some "4"))).db = (gr.sys.step relOp).db ∧
+    (gr.sys.step relOp).udb.nameplates = [rec4] ∧
+    (resend (gr.sys.step (.crashIn 2 relOp)) 9 20 (.int 7) (.int 3) "app" "s1" none none
+      (.release (some "4"))).udb.nameplates = [rec4, rec4] :=
+  ⟨gr_reachCF, rfl, by decide +kernel, GSys.wfOpB_sound (by decide +kernel), rfl, by decide +kernel,
+    by decide +kernel, by decide +kernel, by decide +kernel, by decide +kernel, by decide +kernel,
+    by decide +kernel, by decide +kernel⟩
+
+/-- the instance of `C10_resend_release_all` at that crash point: it is the SECOND alternative (duplicated
+    record) that holds, with `recs = [rec4]`; at `k = 0, 1, 3` the tables are equal (evaluated) -/
+example :=
+  (C10_resend_release_all gr_reachCF.reach (c := 1) (x := xr) (a := "app") (σ := "s1") (nm := none) (n := "4")
+    (by decide +kernel) rfl rfl rfl 20 (.int 3) (GSys.wfOpB_sound (by decide +kernel)) (b := true)
+    (by decide +kernel) 2 9 (.int 7) none none)
+example : ∀ k ∈ [0, 1, 3, 4],
+    (resend (gr.sys.step (.crashIn k relOp)) 9 20 (.int 7) (.int 3) "app" "s1" none none
+      (.release (some "4"))).udb.nameplates = (gr.sys.step relOp).udb.nameplates ∧
+    (resend (gr.sys.step (.crashIn k relOp)) 9 20 (.int 7) (.int 3) "app" "s1" none none
+      (.release (some "4"))).db = (gr.sys.step relOp).db := by decide +kernel
+
+/-- side s1 has also opened the mailbox of its nameplate; its `close` (without the name) is the last one:
+    the mailbox AND the nameplate are retired, one usage row each -/
+def Hc : List Op := Hr ++ [ .recv 1 12 (.int 3) (.open_ (some "mb1")) ]
+def gc : GSys := (GSys.init cfg 0).run Hc
+theorem gc_reachCF : gc.ReachCF :=
+  GSys.reachCF_run (.init cfg 0) Hc (GSys.wfB_sound (by decide +kernel)) (by decide)
+def xc : Conn := { id := 1, app := some "app", side := some "s1", didClaim := true, nameplateId := some "4",
+                   listening := true, mailbox := some "mb1", mailboxId := some "mb1" }
+def clOp : Op := .recv 1 200 (.int 4) (.close none (some "scary"))
+def recN : UNameplate := ⟨"app", 11, none, 189, "lonely"⟩
+def recM : UMailbox := ⟨"app", true, 11, 189, none, "scary"⟩
+def recGone : UMailbox := ⟨"app", false, 200, 0, none, "scary"⟩
+
+/-- **K-usage-crash-dup, `close`.**  All hypotheses of `C10_resend_close_all_partial` hold (the guard of
+    K-crowded-rejoin included); three commit points (channel UPDATE; USAGE; channel DELETE).
+    `k = 2` (between the usage commit and the channel commit): BOTH usage rows are written twice.
+    `k = 3` (after the channel commit, before the answer): the re-sent close re-creates the mailbox, deletes
+    it and writes one more row `(for_nameplate = 0, total = 0)`.  The channel databases are equal. -/
+theorem C10_resend_usage_dup_close_counterexample :
+    gc.ReachCF ∧ gc.sys.cfg.usage = true ∧ gc.sys.findConn 1 = some xc ∧ gc.WFOp clOp ∧
+    xc.closeTarget none = some "mb1" ∧ (gc.sys.db.mbSidesOf "mb1").length ≤ 2 ∧
+    Event.frame 1 .closed true ∈ (gc.sys.step clOp).out ∧
+    (gc.sys.step clOp).snaps.map
+      (fun p => (p.1.mailboxes.length, p.1.nameplates.length, p.2.mailboxes.length, p.2.nameplates.length)) =
+      [(1, 1, 0, 0), (1, 1, 1, 1), (0, 0, 1, 1)] ∧
+    (gc.sys.step clOp).udb.nameplates = [recN] ∧ (gc.sys.step clOp).udb.mailboxes = [recM] ∧
+    (resend (gc.sys.step (.crashIn 2 clOp)) 9 200 (.int 7) (.int 4) "app" "s1" none none
+      (.close (some "mb1") (some "scary"))).udb.nameplates = [recN, recN] ∧
+    (resend (gc.sys.step (.crashIn 2 clOp)) 9 200 (.int 7) (.int 4) "app" "s1" none none
+      (.close (some "mb1") (some "scary"))).udb.mailboxes = [recM, recM] ∧
+    (resend (gc.sys.step (.crashIn 3 clOp)) 9 200 (.int 7) (.int 4) "app" "s1" none none
+      (.close (some "mb1") (some "scary"))).udb.nameplates = [recN] ∧
+    (resend (gc.sys.step (.crashIn 3 clOp)) 9 200 (.int 7) (.int 4) "app" "s1" none none
+      (.close (some "mb1") (some "scary"))).udb.mailboxes = [recM, recGone] ∧
+    (∀ k ∈ [2, 3], (resend (gc.sys.step (.crashIn k clOp)) 9 200 (.int 7) (.int 4) "app" "s1" none none
+      (.close (some "mb1") (some "scary"))).db = (gc.sys.step clOp).db ∧
+      (resend (gc.sys.step (.crashIn k clOp)) 9 200 (.int 7) (.int 4) "app" "s1" none none
+        (.close (some "mb1") (some "scary"))).frames = [.frame 9 (.ack (.int 4)) true, .frame 9 .closed true]) :=
+  ⟨gc_reachCF, by decide +kernel, by decide +kernel, GSys.wfOpB_sound (by decide +kernel), rfl, by decide +kernel,
+    by decide +kernel, by decide +kernel, by decide +kernel, by decide +kernel, by decide +kernel,
+    by decide +kernel, by decide +kernel, by decide +kernel, by decide +kernel⟩
+
+/-- the surplus row is the `goneRecord` of the theorem -/
+example : goneRecord gc.sys.blurTime "app" "mb1" "s1" (some "scary") 200 = recGone := by
+  unfold goneRecord mbRecord; decide +kernel
+
+/-- `C10_resend_close_all_partial` applies (every `k`; here `k = 3`), and before the usage commit
+    (`k = 0, 1`) nothing is duplicated -/
+example :=
+  (C10_resend_close_all_partial gc_reachCF.reach (c := 1) (x := xc) (a := "app") (σ := "s1") (mo := none)
+    (m := "mb1") (mood := some "scary") (by decide +kernel) rfl rfl 200 (.int 4)
+    (GSys.wfOpB_sound (by decide +kernel)) rfl (b := true) (by decide +kernel) (fun _ => by decide +kernel)
+    3 9 (.int 7) none none)
+example : ∀ k ∈ [0, 1], (resend (gc.sys.step (.crashIn k clOp)) 9 200 (.int 7) (.int 4) "app" "s1" none none
+      (.close (some "mb1") (some "scary"))).udb.mailboxes = [recM] ∧
+    (resend (gc.sys.step (.crashIn k clOp)) 9 200 (.int 7) (.int 4) "app" "s1" none none
+      (.close (some "mb1") (some "scary"))).udb.nameplates = [recN] := by decide +kernel
+
+/-! ### a pre-state that is reachable only WITH a crash, `k = 0`, and the other commands -/
+
+/-- the first claim of "4" died after its first commit (mailbox, nameplate, nameplate side on disk; no
+    mailbox side: `SInv` is FALSE here, see `C10Example.C10_strong_needs_crash_free`); the server is
+    restarted and side s1 is back on connection 2 -/
+def Hx : List Op :=
+  [ .connect 1, bind 1 10 "s1", .crashIn 1 (.recv 1 11 (.int 2) (.claim (some "4") "mb1")), .restart 12,
+    .connect 2, bind 2 12 "s1" ]
+def gx : GSys := (GSys.init cfg 0).run Hx
+theorem gx_reach : gx.Reach := GSys.reach_of_wfB _ _ _ (by decide +kernel)
+example : gx.sys.db.mbSides = [] ∧ gx.sys.db.mailboxes.length = 1 := by decide +kernel
+def x2 : Conn := { id := 2, app := some "app", side := some "s1" }
+def claim2 : Op := .recv 2 13 (.int 2) (.claim (some "4") "mb2")
+
+/-- `C10_resend_claim_all` from that state: the second crash of the history (here again after the first
+    commit of the claim, `k = 1`) is covered ... -/
+example : (resend (gx.sys.step (.crashIn 1 claim2)) 9 13 (.int 7) (.int 2) "app" "s1" none none
+    (.claim (some "4") "zzz")).db = (gx.sys.step claim2).db :=
+  (C10_resend_claim_all gx_reach (c := 2) (x := x2) (a := "app") (σ := "s1") (n := "4") (fresh := "mb2")
+    (by decide +kernel) rfl rfl 13 (.int 2) (GSys.wfOpB_sound (by decide +kernel)) (m := "mb1") (b := true)
+    (by decide +kernel) 1 9 (.int 7) none none "zzz" (Or.inl (by decide))).2.2.1
+/-- ... and so is `k = 0` (nothing committed) with the same generated id; with ANOTHER id and a nameplate
+    that does not exist yet the two runs differ in the new mailbox id only (not a defect: `ResendK`) -/
+example : (resend (g0.sys.step (.crashIn 0 claimOp)) 9 11 (.int 7) (.int 2) "app" "s1" none none
+    (.claim (some "4") "mb1")).db = (g0.sys.step claimOp).db :=
+  (C10_resend_claim_all g0_reachCF.reach (c := 1) (x := x1) (a := "app") (σ := "s1") (n := "4") (fresh := "mb1")
+    (by decide +kernel) rfl rfl 11 (.int 2) (GSys.wfOpB_sound (by decide +kernel)) (m := "mb1") (b := true)
+    (by decide +kernel) 0 9 (.int 7) none none "mb1" (Or.inr rfl)).2.2.1
+example : (resend (g0.sys.step (.crashIn 0 claimOp)) 9 11 (.int 7) (.int 2) "app" "s1" none none
+      (.claim (some "4") "zzz")).db.mailboxes.map (·.id) = ["zzz"] ∧
+    (g0.sys.step claimOp).db.mailboxes.map (·.id) = ["mb1"] := by decide +kernel
+
+/-- `open`, `k = 0` -/
+def openOp : Op := .recv 1 100 (.int 2) (.open_ (some "m"))
+example : (resend (g0.sys.step (.crashIn 0 openOp)) 9 100 (.int 7) (.int 2) "app" "s1" none none
+    (.open_ (some "m"))).db = (g0.sys.step openOp).db :=
+  (C10_resend_open_all g0_reachCF.reach (c := 1) (x := x1) (a := "app") (σ := "s1") (mb := "m")
+    (by decide +kernel) rfl rfl 100 (.int 2) (GSys.wfOpB_sound (by decide +kernel))
+    (by decide +kernel) 0 9 (.int 7) none none).2.2.1
+
+/-- the four together, on the `release none` of `gr`: hypotheses hold, conclusion for `k = 2` -/
+example : (gr.sys.step relOp).udb.nameplates <+:
+    (resend (gr.sys.step (.crashIn 2 relOp)) 9 20 (.int 7) (.int 3) "app" "s1" none none
+      (.release (some "4"))).udb.nameplates :=
+  (C10_resend_all_partial gr_reachCF.reach (c := 1) (x := xr) (a := "app") (σ := "s1")
+    (by decide +kernel) rfl rfl (Resend.release none "4" rfl) 20 (.int 3) (GSys.wfOpB_sound (by decide +kernel))
+    ⟨true, by decide +kernel⟩ trivial 2 trivial 9 (.int 7) none none).2.2.1
+
+/-- without a usage database: both databases agree (same history, `usage := false`) -/
+def grN : GSys := (GSys.init {} 0).run Hr
+theorem grN_reach : grN.Reach := GSys.reach_of_wfB _ _ _ (by decide +kernel)
+example : (resend (grN.sys.step (.crashIn 2 relOp)) 9 20 (.int 7) (.int 3) "app" "s1" none none
+      (.release (some "4"))).udb = (grN.sys.step relOp).udb :=
+  (C10_resend_both_nousage grN_reach rfl (c := 1) (x := xr) (a := "app") (σ := "s1")
+    (by decide +kernel) rfl rfl (Resend.release none "4" rfl) 20 (.int 3) (GSys.wfOpB_sound (by decide +kernel))
+    ⟨true, by decide +kernel⟩ trivial 2 trivial 9 (.int 7) none none).2.2
+example : (grN.sys.step relOp).snaps.length = 2 ∧ (grN.sys.step relOp).udb = {} := by decide +kernel
+
+/-! ### the same window seen by the sweep: a second record, and the reverse order in `prune` -/
+
+def sw : Op := .sweep 100000 false
+
+/-- **no re-send at all: the next sweep writes the second record.**  `release` killed after its usage commit
+    (`k = 2`), the client never returns; the nameplate row is still there (unclaimed side row) and the sweep
+    prunes it with its mailbox: the retired nameplate has TWO usage rows, "lonely" (from the crashed release)
+    and "pruney"; the uncrashed history has one. -/
+theorem C10_release_crash_then_sweep_two_records :
+    ((gr.sys.step (.crashIn 2 relOp)).step sw).udb.nameplates = [rec4, ⟨"app", 11, none, 99989, "pruney"⟩] ∧
+    ((gr.sys.step relOp).step sw).udb.nameplates = [rec4] ∧
+    ((gr.sys.step (.crashIn 2 relOp)).step sw).db.nameplates = [] ∧
+    ((gr.sys.step relOp).step sw).db.nameplates = [] := by decide +kernel
+
+/-- **`prune` commits in the OTHER order** (server.py: `db.commit()` then `usage_db.commit()`): a sweep killed
+    between the two (`k = 1`) has deleted the expired nameplate and mailbox and recorded NOTHING; no later
+    sweep can make up for it (the rows are gone).  The uncrashed sweep writes one record each. -/
+theorem C10_sweep_crash_loses_usage_counterexample :
+    (gr.step (.drop 1)).Reach ∧
+    ((gr.step (.drop 1)).sys.step sw).snaps.map
+      (fun p => (p.1.mailboxes.length, p.1.nameplates.length, p.2.mailboxes.length, p.2.nameplates.length)) =
+      [(0, 0, 0, 0), (0, 0, 1, 1), (0, 0, 1, 1)] ∧
+    ((gr.step (.drop 1)).sys.step (.crashIn 1 sw)).db.mailboxes = [] ∧
+    ((gr.step (.drop 1)).sys.step (.crashIn 1 sw)).db.nameplates = [] ∧
+    ((gr.step (.drop 1)).sys.step (.crashIn 1 sw)).udb.mailboxes = [] ∧
+    ((gr.step (.drop 1)).sys.step (.crashIn 1 sw)).udb.nameplates = [] ∧
+    ((((gr.step (.drop 1)).sys.step (.crashIn 1 sw)).step (.restart 100001)).step (.sweep 100002 false)).udb.mailboxes = [] ∧
+    ((gr.step (.drop 1)).sys.step sw).udb.mailboxes = [⟨"app", true, 11, 99989, none, "pruney"⟩] ∧
+    ((gr.step (.drop 1)).sys.step sw).udb.nameplates = [⟨"app", 11, none, 99989, "pruney"⟩] :=
+  ⟨.step _ gr_reachCF.reach (GSys.wfOpB_sound (by decide +kernel)), by decide +kernel, by decide +kernel,
+    by decide +kernel, by decide +kernel, by decide +kernel, by decide +kernel, by decide +kernel, by decide +kernel⟩
+
+end C10dExample
+
 end Wormhole
+
+#print axioms Wormhole.C10_resend_usage_equal_nousage
+#print axioms Wormhole.C10_resend_claim_all
+#print axioms Wormhole.C10_resend_release_all
+#print axioms Wormhole.C10_resend_open_all
+#print axioms Wormhole.C10_resend_close_all_partial
+#print axioms Wormhole.C10_resend_all_partial
+#print axioms Wormhole.C10_resend_usage_prefix_partial
+#print axioms Wormhole.C10_resend_both_nousage
+#print axioms Wormhole.C10dExample.C10_resend_usage_dup_counterexample
+#print axioms Wormhole.C10dExample.C10_resend_usage_dup_close_counterexample
+#print axioms Wormhole.C10dExample.C10_release_crash_then_sweep_two_records
+#print axioms Wormhole.C10dExample.C10_sweep_crash_loses_usage_counterexample
